@@ -9,12 +9,18 @@ enumerated state, enumerates every contour set of <= 2 catalogue contours under 
 program exhaustively, samples deeper programs with -simulate, and prints each program with the demanded pixel
 sets.  drive/xsec.cpp executes them through the real CrossSection API and judges every object by an
 independent crossing-number oracle on ToPolygons(), Area(), the exact `Regularized` predicate (integer
-segment predicates), lattice-ness of the output, and operand-order independence."""
+segment predicates), lattice-ness of the output, and operand-order independence.
+spec/XsecPoly.tla (extends Xsec.tla) adds LATTICE POLYGONS WITH DIAGONAL EDGES: scenes of triangles / quadrilaterals
+on integer points (fans around a common vertex, coincident tips between two edges that cross to the right of the
+tip, triangles on a 3x3 grid, arbitrary lattice points; each also under a D4 element), judged at 8 generic sample
+points per pixel computed by the specification (exact integer winding numbers), by exact triangle areas and
+inclusion-exclusion relations between step areas, and at 25 points per pixel by the driver's own evaluation of the
+set formula on the input contours (validated against the specification's samples on every program)."""
 import json, os, time, threading
 import vf, progfam
 
 LOCK = threading.Lock()
-OWNED = {'pixels', 'winding', 'area', 'regular', 'lattice', 'order', 'finite'}
+OWNED = {'pixels', 'winding', 'area', 'regular', 'lattice', 'order', 'finite', 'dense'}
 
 
 def contour_text(c):
@@ -27,7 +33,7 @@ def prog_text(beh):
     for k, a in enumerate(beh['prog']):
         h = 'c%d' % (k + 1)
         if a['a'] == 'Leaf':
-            s = '%s=%s(%s)' % (h, a['rule'], ' '.join(contour_text(c) for c in a['cs'])) if len(a['cs']) < 3 and \
+            s = '%s=%s(%s)' % (h, a['rule'], ' '.join(contour_text(c) for c in a['cs'])) if \
                 sum(len(c) for c in a['cs']) <= 24 else '%s=%s(%d contours, %d vertices: %s)' % (
                     h, a['rule'], len(a['cs']), sum(len(c) for c in a['cs']), a.get('name', '?'))
         elif a['a'] == 'Bool':
@@ -49,11 +55,11 @@ def sig_of(f, beh):
 
 class Tally:
     def __init__(self):
-        self.n = self.nontrivial = self.uncertain = self.inexact = 0
+        self.n = self.nontrivial = self.uncertain = self.inexact = self.densepts = 0
         self.foreign = {}      # failure kinds owned by other properties (C05): counted, not judged
 
 
-def pdrive(variant, args, behaviours, work, tag, timeout, jobs, per_job=200):
+def pdrive(variant, args, behaviours, work, tag, timeout, jobs, per_job=200, env=None):
     """progfam.pdrive with a configurable chunk size (staircase programs are few but heavy)"""
     from concurrent.futures import ThreadPoolExecutor
     n = len(behaviours)
@@ -66,7 +72,7 @@ def pdrive(variant, args, behaviours, work, tag, timeout, jobs, per_job=200):
         vf.write_ndjson(inp, behaviours[lo:lo + size])
         for attempt in range(6):
             try:
-                res, cr = vf.drive(variant, args, inp, out, timeout=timeout)
+                res, cr = vf.drive(variant, args, inp, out, timeout=timeout, env=env)
                 break
             except OSError:          # the shared driver binary is being re-linked by a concurrent build
                 if attempt == 5:
@@ -82,14 +88,14 @@ def pdrive(variant, args, behaviours, work, tag, timeout, jobs, per_job=200):
     return results, crashes
 
 
-def run_programs(chk, tally, behaviours, opts, tag, jobs=12, variant='seq', timeout=3000, per_job=200):
+def run_programs(chk, tally, behaviours, opts, tag, jobs=12, variant='seq', timeout=3000, per_job=200, env=None):
     """run the programs through mfdrive xsec in parallel chunks; failures of OWNED kinds that repeat when
     re-run become violations"""
     work = '%s/work/%s' % (vf.BUILD, chk.pid)
     os.makedirs(work, exist_ok=True)
     args = ['xsec'] + opts
     t0 = time.time()
-    results, crashes = pdrive(variant, args, behaviours, work, tag, timeout, jobs, per_job)
+    results, crashes = pdrive(variant, args, behaviours, work, tag, timeout, jobs, per_job, env)
     vf.log('[C11] driver %s%s: %d programs in %.0fs' % (tag, ' '.join(opts), len(results), time.time() - t0))
     failing = []
     for i, r in sorted(results.items()):
@@ -97,8 +103,12 @@ def run_programs(chk, tally, behaviours, opts, tag, jobs=12, variant='seq', time
         tally.nontrivial += 1 if r.get('nontrivial', 0) > 0 else 0
         tally.uncertain += r.get('uncertain', 0)
         tally.inexact += r.get('inexact', 0)
+        tally.densepts += r.get('densepts', 0)
         own = []
         for f in r['fail']:
+            if f['kind'] == 'oracle':      # the driver's set formula disagrees with the specification: a defect of the CHECK
+                raise vf.ToolError('C11: oracle mismatch between drive/xsec.cpp and XsecPoly.tla in: %s -- %s' % (
+                    prog_text(json.loads(behaviours[i])), json.dumps(f)[:600]))
             if any(f['kind'] == o for o in OWNED):
                 own.append(f)
             else:
@@ -137,11 +147,12 @@ def run_programs(chk, tally, behaviours, opts, tag, jobs=12, variant='seq', time
 
 
 def gen(chk, cfg, simulate=None, timeout=900, fams=None):
-    """TLC on Xsec.tla with one configuration; returns the distinct programs it printed"""
+    """TLC on Xsec.tla / XsecPoly.tla with one configuration; returns the distinct programs it printed"""
     t0 = time.time()
-    r = vf.tlc('Xsec', cfg, workers=4 if simulate else 2, simulate=simulate, timeout=timeout,
+    module = 'XsecPoly' if cfg.startswith('XsecPoly_') else 'Xsec'
+    r = vf.tlc(module, cfg, workers=4 if simulate or module == 'XsecPoly' else 2, simulate=simulate, timeout=timeout,
                env={'JAVA_TOOL_OPTIONS': '-Xss64m -Xmx4g -XX:ParallelGCThreads=2'})
-    vf.tlc_ok(r, 'Xsec/' + cfg)
+    vf.tlc_ok(r, module + '/' + cfg)
     if r.violation:
         raise vf.ToolError('Xsec/%s: invariant %s violated in the MODEL (specification bug)\n%s' % (cfg, r.violation, r.out[-2500:]))
     behs = list(dict.fromkeys(r.behaviours))
@@ -183,6 +194,9 @@ def main(tier):
         ('stairMC', 'Xsec_stairMC.cfg', None, 900),
         # ... and staircase ribbons with > 1024 edges: the BVH broad phase of boolean2.cpp
         ('stair', 'Xsec_stair.cfg', 2 if quick else 12, 2400)]
+    # lattice polygons with diagonal edges (XsecPoly.tla): fans, coincident tips + crossing pairs, 3x3-grid triangles,
+    # arbitrary lattice triangles / quadrilaterals; PSetLaws, PRays, PCovariant, PShape are checked on every scene
+    plan.insert(2, ('poly', 'XsecPoly_q.cfg' if quick else 'XsecPoly_t.cfg', None, 3000))
     if not quick:
         plan.append(('stairL', 'Xsec_stairL.cfg', 12, 3000))
     from concurrent.futures import ThreadPoolExecutor
@@ -204,6 +218,23 @@ def main(tier):
     # resolve half-lattice features at epsilon
     run_programs(chk, tally, B['prog2'][seed % 3::3] if quick else B['prog2'], ['--inflate'], 'prog2I')
     run_programs(chk, tally, B['batch'][seed % 3::3] if quick else B['batch'], [], 'batch')
+    # lattice polygons: every program printed by XsecPoly.tla
+    n0, d0 = tally.n, tally.densepts
+    # (12-16 steps and ~40 sample-table allocations per program: a small ASan quarantine avoids most of the mmap traffic)
+    penv = {'ASAN_OPTIONS': 'detect_leaks=0:abort_on_error=0:halt_on_error=1:allocator_may_return_null=1:quarantine_size_mb=8'}
+    run_programs(chk, tally, B['poly'], [], 'poly', per_job=100, env=penv)
+    if not quick:
+        run_programs(chk, tally, B['poly'][seed % 5::5], ['--jitter=13'], 'polyJ', per_job=100, env=penv)
+    polyfam, nscenes = {}, 0
+    for b in B['poly']:
+        j = json.loads(b)
+        polyfam[j['fam']] = polyfam.get(j['fam'], 0) + 1
+        nscenes += 1 if j['g'] == 'ID' else 0
+    chk.coverage['lattice_polygons'] = {
+        'programs_replayed': tally.n - n0, 'scenes': nscenes, 'programs_by_family': polyfam,
+        'spec_sample_points_per_program': 512, 'steps_per_program': '14-16',
+        'dense_formula_points_checked': tally.densepts - d0}
+    samples.append(prog_text(json.loads([b for b in B['poly'] if '"tipsX"' in b][0])))
     samples.append(prog_text(json.loads(B['prog4'][len(B['prog4']) // 2])))
     run_programs(chk, tally, B['sim'], [], 'sim')
     samples.append(prog_text(json.loads(B['sim'][0])))
@@ -224,13 +255,21 @@ def main(tier):
                 'oracle invariants; (fill) EVERY set of <= 2 catalogue contours (rectangles of the grid in both orientations, '
                 'rectilinear bow-tie, self-overlapping loop, spike, pinch, comb, 45-degree bow-tie/diamonds/triangle and their '
                 'reversals) x {Positive, EvenOdd}; (prog2/prog4) EVERY program of 2 leaves + 1 / + 2 steps over the small / tiny '
-                'leaf family (quick: a seed-rotated part); (batch) EVERY BatchBoolean of 0/1/3 operands over 3 micro-family leaves; (sim) -simulate programs of 3 leaves + 5 steps; (stair) staircase ribbons > 1024 edges. Every step '
-                'object of every program is judged. non-trivial = final value non-empty',
+                'leaf family (quick: a seed-rotated part); (batch) EVERY BatchBoolean of 0/1/3 operands over 3 micro-family leaves; (sim) -simulate programs of 3 leaves + 5 steps; (stair) staircase ribbons > 1024 edges; '
+                '(poly, XsecPoly.tla) lattice polygons with diagonal edges: scenes of 3-5 triangles / quadrilaterals on integer points '
+                '(fan: common vertex; tipsX: 2-3 coincident lexicographically-largest tips between two edges crossing to the right; '
+                'grid3: 3x3 point grid; rand: arbitrary lattice points), each as it is and under one D4 element, as the program '
+                'Positive(all), EvenOdd(all), each contour alone, BatchAdd/Subtract/Intersect of the singles, X=Positive(odd contours), '
+                'Y=Positive(even contours), X+Y, X^Y, X-Y, Y-X; judged at 8 generic samples per pixel (exact winding in the spec), by exact '
+                'triangle areas and inclusion-exclusion relations, and at 25 points per pixel by the driver\'s set formula on the input contours. '
+                'Every step object of every program is judged. non-trivial = final value non-empty',
         'samples': samples})
     chk.assumptions += [
         'lattice / half-lattice regime: input vertices have integer or half-integer coordinates; values are compared at pixel '
         'centres (and 4 more interior points per pixel for lattice-rectilinear values) by an independent crossing-number oracle',
         'Area = pixel count and lattice-ness are demanded for lattice-rectilinear values only (the property\'s own clause)',
+        'lattice polygons: sample points are off every line through two lattice points of the window (XsecPoly.tla!SamplesGeneric, '
+        '>= 0.0013 from every input edge and its extension); dense points closer than 1e-6 to an input edge are skipped; areas to 1e-9',
         'GetTolerance() drift (known candidate F3) and ToPolygons() bit-stability are logged under C05 kinds, not judged here']
     chk.finish()
 
